@@ -2,12 +2,17 @@ package checks
 
 import (
 	"bytes"
+	"crypto/sha1"
 	"fmt"
+	"math/big"
 	"strings"
+	"sync"
 
 	"verif/mc/drive"
 	"verif/mc/engine"
 	"verif/mc/refcfg"
+	"verif/mc/refder"
+	"verif/mc/refx509"
 	"verif/mc/simfs"
 )
 
@@ -139,6 +144,12 @@ func c07Enumerate(tier string, yield func(any)) {
 		yield(&c07Case{Kind: "ocsp", B: cr})
 	}
 	c07EnumKeyIDs(yield)
+	// request-based entity whose key BIT STRING declares 0..7 unused bits: the key id is the hash of the octets of the bit string
+	for unused := 0; unused < 8; unused++ {
+		for _, curve := range []int{0, 1} {
+			yield(&c07Case{Kind: "skireq", A: unused, B: curve})
+		}
+	}
 	for pos := 0; pos < 4; pos++ {
 		for v := 0; v < 256; v++ {
 			for pad := 0; pad < 3; pad++ {
@@ -305,6 +316,9 @@ func c07Exec(x *engine.Ctx, cc any) {
 		subordinate = c.C == 1 || c.C == 3
 	case "ocsp":
 		e = refcfg.Ext{Kind: refcfg.KOCSP, Critical: c06Crit(c.B)}
+	case "skireq":
+		c07SkiReq(x, c)
+		return
 	}
 	cfg := &refcfg.CertCfg{Path: "ent.yaml", Subject: "CN=ext", KeyAlg: "P-224", Exts: []refcfg.Ext{e}}
 	if (c.Kind == "aki" || c.Kind == "ski") && c.C >= 2 {
@@ -344,11 +358,72 @@ func c07Exec(x *engine.Ctx, cc any) {
 	x.Outcome("compared " + c.Kind)
 }
 
+var c07ReqScalars sync.Map
+
+// c07SkiReq: "ent" exists only as a certificate request whose subjectPublicKey
+// BIT STRING declares c.A unused bits (DER-valid: the point ends in that many
+// zero bits). Its certificate repeats the request's key, and the hashed key
+// identifiers - its own subjectKeyIdentifier and the authorityKeyIdentifier -
+// are SHA-1 over the octets of that bit string (RFC 5280 4.2.1.2 (1)).
+func c07SkiReq(x *engine.Ctx, c *c07Case) {
+	ci := refx509.CurveByName([]string{"P-224", "brainpoolP256r1"}[c.B])
+	key := fmt.Sprintf("%s/%d", ci.Name, c.A)
+	dv, ok := c07ReqScalars.Load(key)
+	if !ok {
+		dv = refx509.ECScalarWithTrailingZeroBits(ci, c.A)
+		c07ReqScalars.Store(key, dv)
+	}
+	req := refx509.BuildCSRUnusedBits(ci, dv.(*big.Int), c.A, "ext")
+	ent := &refcfg.CertCfg{Path: "ent.yaml", Subject: "CN=ext", Issuer: "ca", Exts: []refcfg.Ext{{Kind: refcfg.KSKI, SKI: refcfg.S("hash")}, {Kind: refcfg.KAKI, AKIHash: true}}}
+	d := &Dir{Certs: []*refcfg.CertCfg{{Path: "ca.yaml", Subject: "CN=ca", KeyAlg: "P-256"}, ent}}
+	g := Generate(d, func(w *simfs.World) {
+		w.Put("ca.pem", FixtureKeyPEM("P-256-0"))
+		w.Put("ent.pem", refx509.EncodePem("CERTIFICATE REQUEST", req))
+	}, drive.Default)
+	x.Nontrivial(fmt.Sprintf("skireq %d %d %d", c.A, c.B, c.C))
+	if g.Res.Panic != "" {
+		x.Violation("C07/panic/"+g.Res.PanicSite, g.Res.Panic)
+		return
+	}
+	if !g.Res.OK() {
+		x.Violation("C07/run-failed kind=skireq", fmt.Sprint(g.Res.Err()))
+		return
+	}
+	a := ReadArtifact(g.W, "ent.yaml")
+	if a.Cert == nil {
+		x.Violation("C07/no-certificate kind=skireq", "ent.pem holds no certificate after the run")
+		return
+	}
+	csr, err := refx509.ParseCSR(req)
+	if err != nil {
+		x.Violation("C07/harness-request-does-not-parse", err.Error())
+		return
+	}
+	if !bytes.Equal(a.Cert.PubKey.Bytes, csr.PubKey.Bytes) || a.Cert.PubKey.Unused != csr.PubKey.Unused {
+		x.Outcome("certificate does not repeat the request's key (C14 owns that)")
+		return
+	}
+	want := sha1.Sum(csr.PubKey.Bytes)
+	found := false
+	for _, ext := range a.Cert.Exts {
+		if ext.OID == "2.5.29.14" {
+			found = true
+			if !bytes.Equal(ext.Value, refder.EncOctets(want[:])) {
+				x.Violation(fmt.Sprintf("C07/subjectKeyIdentifier/hash-of-request-key unused-bits=%d", c.A), fmt.Sprintf("got %x want 0414%x", ext.Value, want))
+			}
+		}
+	}
+	if !found {
+		x.Violation("C07/subjectKeyIdentifier/missing kind=skireq", "")
+	}
+	x.Outcome("compared skireq")
+}
+
 func init() {
 	register(&engine.Check{
 		ID:          "C07",
 		Level:       "exploration",
-		Rule:        "keyUsage: all 128 flag subsets x critical 3 (written order varied); subjectAlternativeName: all lists of length 0..4 over {mail,dns,ip} x 2 values plus the all-zero address, a mixed-case dns name, a dns name that reads like an address and a mail name that reads like a host (11111; thorough 0..5), and every octet value 0..255 in each of the four positions of an ip name written plain or with one or two leading zeros (3072); basicConstraints: ca {omitted,false,true} x pathLen {omitted, 0..255, 256, 65535, 2^31} (780); certificatePolicies: 30 policy shapes (plain, cps, every userNotice combination of organization x numbers x text, two qualifiers), singles and all pairs; authorityInformationAccess: lists 0..3 (thorough 0..4) over 7 URIs (two plain ones and five spellings a normalising library would rewrite); extendedKeyUsage: lists 0..3 (thorough 0..4) over 6 names + 3 OIDs (one of them below arc 2 with a second arc above 39); subjectAlternativeName lists up to 4 (thorough 5); authorityKeyIdentifier: hash (self-signed and under an issuer, each also with the entity's own key bits manipulated) and explicit ids of 1,20,32,127,128,768,769,1024 bytes x critical 3, every one-octet id (256) and a three-octet id for every pair of leading base64 characters of its !binary spelling (4096); subjectKeyIdentifier hash; ocspNoCheck; every string-, OID- and list-valued member at 25 lengths around the 127/128, 255/256 and 65535/65536 DER length-form boundaries. Each through a whole run; the emitted body must equal the reference DER encoding written from RFC 5280 / 6960 (DER is canonical, so byte equality = an independent decoder reading back exactly the configured value). non-trivial = distinct case",
+		Rule:        "keyUsage: all 128 flag subsets x critical 3 (written order varied); subjectAlternativeName: all lists of length 0..4 over {mail,dns,ip} x 2 values plus the all-zero address, a mixed-case dns name, a dns name that reads like an address and a mail name that reads like a host (11111; thorough 0..5), and every octet value 0..255 in each of the four positions of an ip name written plain or with one or two leading zeros (3072); basicConstraints: ca {omitted,false,true} x pathLen {omitted, 0..255, 256, 65535, 2^31} (780); certificatePolicies: 30 policy shapes (plain, cps, every userNotice combination of organization x numbers x text, two qualifiers), singles and all pairs; authorityInformationAccess: lists 0..3 (thorough 0..4) over 7 URIs (two plain ones and five spellings a normalising library would rewrite); extendedKeyUsage: lists 0..3 (thorough 0..4) over 6 names + 3 OIDs (one of them below arc 2 with a second arc above 39); subjectAlternativeName lists up to 4 (thorough 5); authorityKeyIdentifier: hash (self-signed and under an issuer, each also with the entity's own key bits manipulated) and explicit ids of 1,20,32,127,128,768,769,1024 bytes x critical 3, every one-octet id (256) and a three-octet id for every pair of leading base64 characters of its !binary spelling (4096); subjectKeyIdentifier hash, also for a request-based entity whose key BIT STRING declares 0..7 unused bits (two curves; the key id is SHA-1 over the octets of the bit string); ocspNoCheck; every string-, OID- and list-valued member at 25 lengths around the 127/128, 255/256 and 65535/65536 DER length-form boundaries. Each through a whole run; the emitted body must equal the reference DER encoding written from RFC 5280 / 6960 (DER is canonical, so byte equality = an independent decoder reading back exactly the configured value). non-trivial = distinct case",
 		Bound:       map[string]string{"lists": "quick <=3, thorough SAN<=4 AIA<=5 EKU<=4", "pathLen": "0..255 + 3 large"},
 		Assumptions: []string{"a userNotice with neither organization, numbers nor text has no defined encoding and is excluded", "SAN ip octets outside 0..255 are outside the domain (C20 covers the error clause)"},
 		Budget:      budgets(quickBudget, thoroughBudget),
